@@ -561,6 +561,32 @@ def _run(ctx):
                 un = float((grid.norm(dim=-1) - 1).abs().max())
                 if d > 1e-10 or un > 1e-12 or tuple(vals.shape) != (2,) + tuple(grid.shape[:2]):
                     oracle_fail.append(dict(oracle="signal_on_grid", lmax=lmax, pv=pv, pa=pa, res=res, diff=d, grid_unit=un))
+            # ---------- the non-default normalisations, on signals whose top degrees vanish (a transform built for a smaller band
+            #            limit would scale 'component' / 'norm' by sqrt((lmax+1)/(lmax_eff+1))): documented per-degree constants
+            #            n_l('component') = sqrt(4 pi)/sqrt(2l+1)/sqrt(lmax+1), n_l('norm') = sqrt(4 pi)/sqrt(lmax+1), 'integral' = 1
+            for nz in ("component", "norm", "integral"):
+                res = ress[0] if nz != "norm" else ress[1]
+                for keep in sorted({0, lmax // 2, max(lmax - 1, 0), lmax}):
+                    c = randn(2, dim)
+                    c[:, (keep + 1) ** 2:] = 0.0
+                    stt, ret = status_of(lambda: st.signal_on_grid(c, res, normalization=nz))
+                    ctx.case(("signal_on_grid-normalization", lmax, pv, pa, res, nz, keep))
+                    ctx.count("signal_on_grid:" + nz + ":" + stt)
+                    if stt != "ok":
+                        oracle_fail.append(dict(oracle="signal_on_grid:raises", lmax=lmax, res=res, normalization=nz, status=stt))
+                        continue
+                    grid, vals = ret
+                    nl = torch.cat([torch.full((2 * l + 1,), {"component": math.sqrt(4 * math.pi) / math.sqrt(2 * l + 1) / math.sqrt(lmax + 1),
+                                                            "norm": math.sqrt(4 * math.pi) / math.sqrt(lmax + 1), "integral": 1.0}[nz],
+                                               dtype=torch.float64) for l in range(lmax + 1)])
+                    want = torch.einsum("bai,zi->zba", real.Y(lmax, grid), c * nl)
+                    d = float((vals - want).abs().max())
+                    note_diff("signal_on_grid:normalization-vs-documented-constants", d)
+                    if d > 1e-10:
+                        oracle_fail.append(dict(oracle="signal_on_grid:normalization", lmax=lmax, pv=pv, pa=pa, res=res, normalization=nz,
+                                                highest_nonzero_degree=keep, diff=d,
+                                                call=f"SphericalTensor({lmax},{pv},{pa}).signal_on_grid(c, {res}, normalization='{nz}') with c[(keep+1)^2:] = 0 "
+                                                     "vs sum_l n_l sum_k c_lk Y_lk(grid) with the documented n_l"))
             # error branches of the resolution
             for res in (2 * (lmax + 1) - 2, 2 * (lmax + 1) + 1):
                 stt, _ = status_of(lambda: st.signal_on_grid(randn(dim), res))
